@@ -42,6 +42,10 @@ def run(cases, run_case, nontrivial=lambda c: True, workers=None, max_failures=2
             seen.add(k)
             if nontrivial(case):
                 distinct += 1
+        if isinstance(r, dict) and r.get("ok"):
+            n += int(r.get("count", 1)) - 1
+            distinct += int(r.get("distinct", r.get("count", 1))) - (1 if nontrivial(case) and k not in () else 0)
+            continue
         if err is not None:
             failures.append({"id": len(failures), "case": case, "detail": "harness/contract raised: " + err, "crash": True})
         elif r is not None:
@@ -50,9 +54,14 @@ def run(cases, run_case, nontrivial=lambda c: True, workers=None, max_failures=2
             r["id"] = len(failures)
             failures.append(r)
     out = {"evaluations": n, "distinct_nontrivial": distinct, "failures": failures[:max_failures],
-           "n_failures": len(failures), "samples": [c for c in cases[:3]], "secs": round(time.time() - t0, 1)}
+           "n_failures": len(failures), "samples": [_short(c) for c in cases[:3]], "secs": round(time.time() - t0, 1)}
     print(json.dumps(out, default=str))
     return 0
+
+
+def _short(c):
+    s = json.dumps(c, default=str)
+    return c if len(s) < 400 else json.loads(json.dumps({"abridged": s[:380]}))
 
 
 def std_args():
